@@ -15,7 +15,7 @@ CFG = {
     "level_note": "Trusted: Coq kernel + vm_compute; hand-written models tied by differential correspondence only "
                   "(generator quality bounds it); strconv number printing/parsing and the float64->float32 conversion "
                   "are Go-side; the whole-file theorems cover ply.Write's table (unspecified properties on/off) except point "
-                  "clouds with per-vertex s/t texture coordinates (equal only up to attribute order: checked per case); "
+                  "clouds with per-vertex s/t texture coordinates, proved through placed readers under a decidable side condition; "
                   "custom writer tables are covered by a conditional theorem, the correspondence and the oracle",
     "technique": "Coq proof (induction over property lists, vertex records, face records; byte/token level round trip) "
                  "+ vm_compute correspondence check",
